@@ -97,7 +97,9 @@ func (s *vC04Sys) Apply(op vOp, hist []vOp, check bool) {
 	switch op.K {
 	case "Add":
 		s.nAdd++
-		if err := s.idx.Add(*NewMetadataNodeWithID((uint32(op.A) + vIDBase), vCloneMeta(s.docs[op.B]))); err != nil {
+		err := s.idx.Add(*NewMetadataNodeWithID((uint32(op.A) + vIDBase), vCloneMeta(s.docs[op.B])))
+		vSpoilMeta()
+		if err != nil {
 			if check {
 				s.c.Violation("add-failed", "", s.cfgS, h(), err.Error())
 			}
@@ -550,11 +552,15 @@ func vC04Singles() []Filter {
 	for _, r := range [][2]interface{}{{-3, 7}, {0, 0}, {-5, -1}, {1, 100}, {7, -3}, {-(int64(1) << 40), int64(1) << 40}, {0, 7}, {-3, -3}} {
 		out = append(out, Range("i", r[0], r[1]))
 	}
-	fv := []interface{}{-1.5, -1.51, 0.0, 0.01, 0.28, 0.29, 0.3, 19.99, 20.0, 2.5, 2.51}
+	// operands with two decimals, and operands with a third decimal on either side of the
+	// rounding point (never exactly on it): floats are compared at two-decimal fixed point,
+	// so an operand is its nearest hundredth for every operator alike
+	fv := []interface{}{-1.5, -1.51, 0.0, 0.01, 0.28, 0.29, 0.3, 19.99, 20.0, 2.5, 2.51,
+		0.284, 0.286, 0.294, 0.296, 19.994, 19.996, 2.496, 2.504, 0.004, 0.006, -1.496, -1.504}
 	for _, v := range fv {
 		out = append(out, Eq("f", v), Ne("f", v), Gt("f", v), Gte("f", v), Lt("f", v), Lte("f", v))
 	}
-	for _, r := range [][2]interface{}{{0.28, 0.29}, {-2.0, 0.0}, {0.29, 19.99}, {0.0, 0.0}, {2.5, 2.51}} {
+	for _, r := range [][2]interface{}{{0.28, 0.29}, {-2.0, 0.0}, {0.29, 19.99}, {0.0, 0.0}, {2.5, 2.51}, {0.284, 0.286}, {0.286, 19.994}, {0.296, 19.996}, {0.006, 2.496}} {
 		out = append(out, Range("f", r[0], r[1]))
 	}
 	// out of the oracle's domain: must merely not panic
